@@ -152,6 +152,16 @@ impl StateEntry {
     }
 }
 
+/// Does the value hold a NaN or an infinite number anywhere inside it?
+fn contains_non_finite_number(value: &Value) -> bool {
+    match value {
+        Value::Number(n) => !n.is_finite(),
+        Value::Array(items) => items.iter().any(contains_non_finite_number),
+        Value::Object(map) => map.values().any(contains_non_finite_number),
+        _ => false,
+    }
+}
+
 /// Main state store for managing stateful operations
 pub struct StateStore {
     /// Configuration
@@ -559,6 +569,20 @@ impl StateStore {
                 }
             }
             StateBackend::File { path } => {
+                // JSON has no representation for NaN or an infinite number: serde_json writes
+                // `null` for it and the checkpoint could never be restored. Refuse the
+                // checkpoint instead of acknowledging one that is lost already.
+                if let Some(key) = snapshot
+                    .iter()
+                    .find(|(_, value)| contains_non_finite_number(value))
+                    .map(|(key, _)| key.clone())
+                {
+                    return Err(RuleEngineError::ExecutionError(format!(
+                        "Cannot checkpoint: the value of '{}' contains a non-finite number, which JSON cannot represent",
+                        key
+                    )));
+                }
+
                 // Serialize and save to file
                 let checkpoint_path = path.join(&checkpoint_id);
                 fs::create_dir_all(&checkpoint_path).map_err(|e| {
